@@ -39,6 +39,9 @@ CHECKS = {
  "C08": ("exploration", "schedule enumeration: all n! arrival orders (n<=5, sampled at 6) and every single-fragment duplication, each executed on the real query and compared with in-order delivery",
          "For Valve Source/GoldSrc/bzip2 splits (info, players, rules), GameSpy 1 parts, GameSpy 3 packets and Unreal 2 rules/players lists with 2..6 fragments: every permutation (exhaustive for n<=5) must give the in-order result, every duplication Err or the in-order result. Unreal 2 is compared exactly and as multisets so that pure ordering differences (known findings: the protocol has no fragment index) are told apart from loss or duplication.",
          "The permuted section is the last one requested so that left-over datagrams cannot answer a later request; server models as in C02/C04/C06.", "4 C08"),
+ "C09": ("exploration", "transport-log monitor: every connect/send event (destination, bytes) compared with reference request sequences produced by the server models; exhaustive stratified Valve challenge enumeration",
+         "Valve challenge echo for all 12^4 words over a boundary byte alphabet at each of info/players/rules with 1-3 rounds (complete log must equal the reference built from what the server issued) plus random words; GameSpy 3 decimal challenges incl. 0/negatives; Java handshake bytes for host-name/protocol/port classes; and for every GAMES entry x port given/omitted x IPv4/IPv6 the destination of every connection and the full request sequence of a valid exchange.",
+         "Reference requests from DESIGN Appendix A; Q3 (legacy 1.6 ping payload) asserted loosely, Q6 (Java ping payload) observe-only; default ports taken from the definitions table.", "4 C09"),
 }
 NOT_YET = {}
 for i in range(1, 21):
